@@ -167,12 +167,33 @@ func rpnSkeleton(p *parsers.ExpressionParser) []string {
 	return out
 }
 
+// one parser object that lives through the whole run: what it accepts must not depend on what it parsed before
+var c02Warm = parsers.NewExpressionParser()
+
+func parseOutcome(p *parsers.ExpressionParser, text string) string {
+	if err := p.ParseString(text); err != nil {
+		code, _ := errCode(err)
+		return fmt.Sprint("rejected with code ", code)
+	}
+	return "accepted as " + strings.Join(rpnSkeleton(p), " ")
+}
+
 func runC02(in sx.SX) (sx.SX, string) {
 	l := sx.AsList(in)
 	text := sx.AsString(l[0])
 	p := parsers.NewExpressionParser()
 	err := p.ParseString(text)
 	fail := ""
+	{
+		fresh := parseOutcome(parsers.NewExpressionParser(), text)
+		first := parseOutcome(c02Warm, text)
+		second := parseOutcome(c02Warm, text)
+		if first != fresh {
+			fail = "a parser object used before: " + first + "; a new parser: " + fresh
+		} else if second != fresh {
+			fail = "the same text submitted twice to one parser object: second time " + second + "; a new parser: " + fresh
+		}
+	}
 	// the tokens the model is given are the tokens the parser saw
 	var given []srcTok
 	for _, t := range sx.AsList(l[1]) {
